@@ -143,6 +143,19 @@ def conv_checks(ctx, comp, rated, curve, powers, where, strict=False, label=""):
     arr = np.array(powers, dtype=float)
     in_arr = np.asarray(comp.get_power_input_from_bidirectional_output(arr.copy())[0], dtype=float)
     out_arr = np.asarray(comp.get_power_output_from_bidirectional_input(arr.copy())[0], dtype=float)
+    # whole-number series handed over as integer arrays convert like the same numbers one by one
+    ints = np.array([int(round(p)) for p in powers], dtype=int)
+    try:
+        in_int = np.asarray(comp.get_power_input_from_bidirectional_output(ints.copy())[0], dtype=float)
+        out_int = np.asarray(comp.get_power_output_from_bidirectional_input(ints.copy())[0], dtype=float)
+        for i, q in enumerate(ints):
+            a = float(comp.get_power_input_from_bidirectional_output(float(q))[0])
+            b = float(comp.get_power_output_from_bidirectional_input(float(q))[0])
+            if not (close(in_int[i], a, scale=rated) and close(out_int[i], b, scale=rated)):
+                ctx.fail("predicate", "integer-array-differs-from-scalar", f"{label}power {q}: integer array ({in_int[i]}, {out_int[i]}) scalar ({a}, {b})", where)
+                break
+    except Exception as e:
+        ctx.fail("predicate", "integer-array-raises-" + core.error_class(e), f"{label}{type(e).__name__}: {e}", where)
     for i, p in enumerate(powers):
         cov = covered(curve, rated, p)
         ctx.count("power_kind", "zero" if p == 0 else ("covered" if cov else "extrapolated-or-near-rated"))
